@@ -8,7 +8,7 @@ use grep_matcher::Matcher;
 use grep_regex::RegexMatcherBuilder;
 use grep_searcher::{Searcher, SearcherBuilder, Sink, SinkContext, SinkContextKind, SinkFinish, SinkMatch};
 
-const PATTERNS: &[&str] = &["a\nb", "a\n", "\na", "^a", "a$", "a|\n\n", "(?s:a.b)", r"\bb", "b*", "^", "$", "a\n|^", r"\Ab|b\n\z", "a\nb|b\na", r"\n+", "^|a\nb", r"\b|a\nb", "$|b\na", r"\b|a\n-", r"-\n\b"];
+const PATTERNS: &[&str] = &["a\nb", "a\n", "\na", "^a", "a$", "a|\n\n", "(?s:a.b)", r"\bb", "b*", "^", "$", "a\n|^", r"\Ab|b\n\z", "a\nb|b\na", r"\n+", "^|a\nb", r"\b|a\nb", "$|b\na", r"\b|a\n-", r"-\n\b", r"a|\z"];
 const ALPHA: &[u8] = b"ab\n-";
 
 #[derive(Clone, PartialEq, Eq, Debug)]
